@@ -164,6 +164,12 @@ int c_crps(int nval,int ncol,
 		}
 	}
 
+    /* o[0] and o[ncol] are frequencies: the rounding of the weight sum
+     * can leave them just above 1, which turns the potential CRPS
+     * of the outlier bins negative */
+    if(o[0]>1.0) o[0] = 1.0;
+    if(o[ncol]>1.0) o[ncol] = 1.0;
+
 	/* Computation of the oi, gi, Reli_i and crps_potential_i
      * from the ai and bi (Eq 30, 31, 33, 36 and 37) */
 	for(j=0;j<ncol+1;j++)
